@@ -686,7 +686,10 @@ impl Channel {
             None
         } else if next_commit_num == commitment_number + 1 {
             state.current_counterparty_point
-        } else if next_commit_num == commitment_number {
+        } else if next_commit_num == commitment_number + 2
+            && state.next_counterparty_revoke_num <= commitment_number
+        {
+            // the previous commitment is not revoked yet, so there is no secret, only the point
             state.previous_counterparty_point
         } else if let Some(secrets) = state.counterparty_secrets.as_ref() {
             let secret = secrets.get_secret(INITIAL_COMMITMENT_NUMBER - commitment_number);
